@@ -57,11 +57,11 @@ func randString(r *rng.R, max int) []byte {
 }
 
 func Run(c *core.Ctx) {
-	c.Rule = "distinct non-trivial = distinct (family, input) pairs whose string holds at least one of & < > \" ' or a byte >= 0x80 or a control byte (the inputs on which an escaper has anything to do); probe cases are keyed by (probe, string)"
+	c.Rule = "distinct non-trivial = distinct (family, input) pairs whose string holds at least one of & < > \" ' or a byte >= 0x80 or a control byte (the inputs on which an escaper has anything to do); probe cases are keyed by (probe, string), literal probes by (sink shape, spelling, string), generator-model ties by probe file"
 	c.Trusted = append(c.Trusted,
 		"specifications spec/HtmlTok.v (byte-step HTML5 tokenizer restricted to structure), spec/HtmlRefs.v (character references), spec/DocExpect.v (the author's tokens), spec/ScriptExpect.v (the script elements intended by a sequence of script operations on one context); validated against golang.org/x/net/html's tokenizer and html.UnescapeString in the thorough tier",
 		"extraction: ExtrOcamlBasic only; ocaml/driver.ml",
-		"Go harness internal/c01 (probe table, expectation by substitution into the tokens of a benign rendering) and the Go toolchain; the templ parser (string -> AST) is not modelled")
+		"Go harness internal/c01 (probe table, expectation by substitution into the tokens of a benign rendering; literal probes: the template shapes with their model trees, the value of a literal spelling by strconv.Unquote) and the Go toolchain; the templ parser (string -> AST) is not modelled")
 	c.Assume = append(c.Assume,
 		"the consumer is an HTML5 tokenizer in the HTML namespace (no svg/math foreign content); input-stream preprocessing (CR/CRLF normalisation, NUL replacement) is outside the tokenizer and does not change its state",
 		"spread-attribute KEYS are name-shaped (templ escapes but does not validate keys; the property speaks of values)",
